@@ -20,7 +20,9 @@ EXTENDS Integers, Sequences, FiniteSets, TLC, Json
 CONSTANTS Order,      \* sequence of child names in hook order, e.g. <<"a","b","c">>
           Methods,    \* subset of {"RollingInPlace","RollingRecreate"}
           ChecksSet,  \* subset of BOOLEAN: status checks configured?
-          Policies,   \* subset of {"fair","noOG"} \cup {"stuck"}: how children become healthy
+          Policies,   \* subset of {"fair","noOG","zeroOG","strOG","stuck"}: how children become healthy (zeroOG / strOG:
+                      \* status.observedGeneration is 0 / not a number, which the code treats as "not reported")
+          ScaleRevs,  \* subset of BOOLEAN: the revisioned field also decides the SET of children (revision 2 drops the last one)
           Variant,    \* "code" | "intended"
           MaxPert,    \* number of perturbations in a plan (besides the initial spec change)
           Rounds,     \* number of rounds
@@ -37,8 +39,8 @@ First(S) == CHOOSE c \in S : \A d \in S : Pos(c) <= Pos(d)
 
 \* perturbations: [round, op, kid]
 PertOps == {"spec", "delkid", "scaledown", "scaleup", "nonrev"}
-VARIABLES rev, nonrev, names, kid, revs, cond, last, round, plan, method, checks, policy, owncond, trace
-vars == <<rev, nonrev, names, kid, revs, cond, last, round, plan, method, checks, policy, owncond, trace>>
+VARIABLES rev, nonrev, names, kid, revs, cond, last, round, plan, method, checks, policy, owncond, scalerev, trace
+vars == <<rev, nonrev, names, kid, revs, cond, last, round, plan, method, checks, policy, owncond, scalerev, trace>>
 
 Last0 == [moved |-> {}, gated |-> {}, gateOk |-> TRUE, firstNeeding |-> {}, writes |-> 0, oldOk |-> TRUE, nonrevOk |-> TRUE, sync |-> FALSE]
 \* perturbations happen while the rollout is in flight (rounds 2 .. 2 + 2 n)
@@ -56,7 +58,7 @@ Init ==
   /\ kid = [c \in Kids |-> NoKid] /\ revs = [r \in Revs |-> NoRev]
   /\ cond = "None" /\ last = Last0 /\ round = 0 /\ trace = <<>>
   /\ method \in Methods /\ checks \in ChecksSet /\ owncond \in OwnConds
-  /\ policy \in Policies
+  /\ policy \in Policies /\ scalerev \in ScaleRevs
   /\ \E n \in 0..MaxPert : \E p \in [1..n -> Perts] : plan = p /\ PlanOK(p)
 
 \* ---- one sync (a pure function of the state record s) -----------------------------------------
@@ -67,7 +69,9 @@ UpToDate(s, c, r) == s.kid[c].live /\ s.kid[c].v = r /\ s.kid[c].nv = s.nonrev
 Happy(s, c)       == /\ (checks => s.kid[c].healthy)
                      /\ (method = "RollingInPlace") => s.kid[c].og # "lag"
 Others(s)         == { r \in Revs : r # s.rev /\ s.revs[r].live }
-Want(s)           == s.names                                    \* children the latest hook answer lists
+\* children the hook answer for revision r lists; the latest answer decides which children exist
+WantAt(s, r)      == IF scalerev /\ r = 2 THEN s.names \ {Order[Len(Order)]} ELSE s.names
+Want(s)           == WantAt(s, s.rev)
 
 RECURSIVE ClaimRest(_, _, _, _)
 ClaimRest(s, rs, taken, acc) ==
@@ -129,7 +133,7 @@ ApplyPerts(r) ==
               !.names  = IF Has(r, "scaledown") THEN Kids \ {Order[Len(Order)]} ELSE IF Has(r, "scaleup") THEN Kids ELSE names,
               !.kid    = IF Has(r, "delkid") THEN [kid EXCEPT ![KidOf(r, "delkid")] = NoKid] ELSE kid]
 Heal(k) == [c \in Kids |-> IF k[c].live /\ ~(policy = "stuck" /\ c = Order[1] /\ k[c].v > 1)
-                           THEN [k[c] EXCEPT !.healthy = TRUE, !.og = IF policy = "noOG" THEN "none" ELSE "ok"] ELSE k[c]]
+                           THEN [k[c] EXCEPT !.healthy = TRUE, !.og = IF policy \in {"noOG", "zeroOG", "strOG"} THEN "none" ELSE "ok"] ELSE k[c]]
 \* round 0 creates the children at revision 1; round 1 changes the revisioned field
 Round ==
   /\ round < Rounds
@@ -137,7 +141,7 @@ Round ==
          e == SyncEffect(p) IN
      /\ rev' = p.rev /\ nonrev' = p.nonrev /\ names' = p.names
      /\ round' = round + 1
-     /\ UNCHANGED <<plan, method, checks, policy, owncond>>
+     /\ UNCHANGED <<plan, method, checks, policy, owncond, scalerev>>
      /\ revs' = e.revs /\ kid' = Heal(e.kid) /\ cond' = e.cond /\ last' = e.last
      /\ trace' = Append(trace, [cond |-> e.cond, moved |-> e.last.moved, gated |-> e.last.gated,
                                 claims |-> [r \in Revs |-> e.revs[r].names], live |-> { r \in Revs : e.revs[r].live },
@@ -152,8 +156,8 @@ C07_HookOrder == (last.gated # {} /\ last.moved # {}) => last.moved = last.first
 C07_Gate      == last.gated # {} => last.gateOk
 C07_OldStay   == last.oldOk
 C07_NonRevNow == last.nonrevOk
-Done == /\ \A c \in names : kid[c].live /\ kid[c].v = rev /\ kid[c].nv = nonrev
-        /\ \A c \in Kids \ names : ~kid[c].live
+Done == /\ \A c \in Want(Cur) : kid[c].live /\ kid[c].v = rev /\ kid[c].nv = nonrev
+        /\ \A c \in Kids \ Want(Cur) : ~kid[c].live
         /\ cond = "OnLatest"
         /\ \A r \in Revs : revs[r].live <=> (r = rev)
 \* rounds after the last perturbation: a healthy rollout completes within 4 n + 4 syncs
@@ -167,7 +171,7 @@ C01_QuietWhenDone == [][(Done /\ round' > LastPert + 1) => (Done' => last'.write
 C07_StuckWaits == (policy = "stuck" /\ checks /\ round >= 4 /\ plan = <<>> /\ Len(Order) > 1) => cond # "OnLatest"
 
 Emit == (round = Rounds) =>
-  PrintT("SCN|" \o ToJson([order |-> Order, method |-> method, checks |-> checks, policy |-> policy, owncond |-> owncond, plan |-> plan,
+  PrintT("SCN|" \o ToJson([order |-> Order, method |-> method, checks |-> checks, policy |-> policy, owncond |-> owncond, scalerev |-> scalerev, plan |-> plan,
                            rounds |-> Rounds, trace |-> trace, done |-> Done, healthy |-> Healthy, lastPert |-> LastPert,
-                           final |-> [rev |-> rev, nonrev |-> nonrev, names |-> names]]))
+                           final |-> [rev |-> rev, nonrev |-> nonrev, names |-> Want(Cur)]]))
 =============================================================================
